@@ -19,26 +19,39 @@ PROP = "C44"
 READY = True
 DRIVER = "dm_dfpart"
 LEAN_MODULES = ["DaskModel.Props.C44"]
-LEVEL_TEXT = ("Lean 4 theorems over a transliteration of dask_expr/_repartition.py, for every list of partitions: "
-              "RepartitionToFewer concatenates contiguous runs of input partitions, so rows and order are preserved and "
-              "exactly n partitions come out (tofewer_rows, under the boundary hypothesis 'starts at 0, non-decreasing, "
-              "ends <= old' that the float expression is checked against exhaustively); RepartitionToMore: sum(nsplits) = n "
-              "(nsplits_sum), exactly n partitions and rows/order preserved (tomore_rows, under the analogous hypothesis on "
-              "split_evenly's positions); Repartition._lower yields n partitions in every branch after the fix of defect #22 "
-              "(lower_npartitions); from_pandas_rows (partitions cut at the planned locations concatenate to the sorted frame, one "
-              "per division interval); divisions_npartitions (repartition(divisions=d) has exactly len(d)-1 partitions). "
-              "The RepartitionDivisions interval walk is modelled executable and tied key-by-key to "
-              "_layer(); its row/order/divisions theorem is stated (FullStatement) and currently VALIDATED by the tie "
-              "(API-level, random division vectors incl. force and single-last-division), not proved. RepartitionSize "
-              "(memory-usage driven) is validated at API level only.")
+LEVEL_TEXT = ("Lean 4 theorems over a transliteration of dask_expr/_repartition.py, for every list of partitions. "
+              "RepartitionDivisions: divisions_rows_order_truthful (the FULL statement: for every frame truthful for legal old "
+              "divisions with partitions in index order and every legal new division vector the guards accept - force or not, "
+              "repeated last division in old and/or new - the result has the same rows in the same order and is truthful for "
+              "exactly the requested divisions) and divisions_total (both walks of _layer finish without IndexError/KeyError "
+              "and every key the layer refers to exists); proved by loop invariants for both walks plus a semantic invariant on "
+              "the evaluated pieces (Lemmas/RepartWalk, RepartWalk2), for the code as repaired in /repo 5d1a6bb (before: all rows "
+              "lost for single-label frames with force - found through the certificate). divisions_order_needs_sorted_partitions: "
+              "without index-ordered partitions the order is NOT kept (witness; known finding). layerOK/layer_sound "
+              "(divisions_rows_order_truthful_partial): a decidable certificate on a layer that implies rows/order/truthfulness "
+              "for every frame - evaluated on every layer the REAL _layer() builds. RepartitionToFewer: tofewer_rows, "
+              "tofewer_contiguous (under the boundary hypothesis 'starts at 0, non-decreasing, ends <= old' on the float "
+              "expression int(i*(old/new)), checked exhaustively against an exact double model); RepartitionToMore: nsplits_sum, "
+              "tomore_rows, tomore_npartitions (same kind of hypothesis on split_evenly's positions); lower_npartitions (exactly n "
+              "partitions in every branch of Repartition._lower); RepartitionSize: repartition_size_rows (any split counts from "
+              "1 + mem//size and any chunk lengths iter_chunks yields: rows, order, one partition per chunk), iter_chunks_lengths, "
+              "sizeNsplits_pos; from_pandas_rows; divisions_npartitions. VALIDATED only: monotonicity of the two float "
+              "expressions (hypotheses BoundsOK / PosOK), pandas memory_usage (an input), boundary_slice = key-range filter.")
 LEVEL_NOTE = ("Trusted: Lean kernel + standard axioms; the exact double model (round-to-nearest-even division and "
               "multiplication, truncation) is diffed against CPython/NumPy on every run; pandas label slicing inside "
-              "boundary_slice is taken as a filter on the index (diffed); memory_usage of RepartitionSize is an input.")
-TECHNIQUE = "Lean 4 proof (list induction over an executable transliteration) + differential correspondence + property oracle on the real code"
+              "boundary_slice is taken as a filter on the index (diffed, sorted and unsorted index); memory_usage of "
+              "RepartitionSize is an input (the real _nsplits / boundaries are diffed against the model on the measured usages).")
+TECHNIQUE = ("Lean 4 proof (loop invariants + semantic invariant over an executable transliteration; proved-sound layer certificate "
+             "evaluated on the real layers) + differential correspondence + property oracle on the real code")
 ASSUMPTIONS = ["index values are compared only through <, <=, == (non-negative ints in the model)",
                "boundary_slice(df, lo, hi, right_boundary) = rows with lo <= key and (key < hi or right_boundary and key == hi), order kept",
+               "partitions of a frame with known divisions are in index order (true for from_pandas / set_index / sorted sources; "
+               "otherwise repartition(divisions) regroups rows by key range: known finding)",
                "int(i*(old/new)) and np.linspace(0,len,k+1).astype(int) are non-decreasing, start at 0 and end <= old/len "
                "(checked exhaustively for old,new <= 120 quick / 300 thorough against the exact double model and the hypothesis)"]
+TRUSTED = ["Lean 4 kernel, axioms propext / Classical.choice / Quot.sound", "harness/props/c44.py differential tie (function level: "
+           "_compute_partition_boundaries, split_evenly, _nsplits, Repartition._lower, RepartitionDivisions._layer key by key, "
+           "boundary_slice, iter_chunks, RepartitionSize._nsplits/_partition_boundaries; API level)", "NumPy / pandas as oracles"]
 CASE_TIMEOUT_S = 90
 
 
